@@ -313,6 +313,18 @@ func (n *LocalNode) executeLeave() (pre, succ chord.VNode, err error) {
 		n.logger.Info("Leave locks acquired (self -> succ)")
 	}
 
+	// the successor was read before the locks were taken: a node may have joined between us and it in
+	// the meantime, in which case our keys belong to that node and not to the one we have locked.
+	// With both locks held no further join can slip in, so checking once is enough
+	if curr := n.getSuccessor(); curr == nil || curr.ID() != succ.ID() {
+		n.logger.Warn("Successor changed while acquiring leave locks, retrying", zap.Object("locked", succ.Identity()))
+		n.state.Set(chord.Active)
+		if err := succ.FinishLeave(false, true); err != nil {
+			n.logger.Warn("error releasing leave lock in successor", zap.Error(err))
+		}
+		return nil, nil, chord.ErrLeaveInvalidState
+	}
+
 	n.surrogateMu.Lock()
 	defer n.surrogateMu.Unlock()
 
